@@ -1,13 +1,22 @@
 """C04 - every raised exception becomes the response its most specific handler defines."""
 PROP = 'C04'
-LEAN_MODULES = ['FalconModel.ErrHandlers', 'FalconModel.ErrHandleProofs']
-DRIVERS = ['ehdriver']
+LEAN_MODULES = ['FalconModel.ErrHandlers', 'FalconModel.ErrHandleProofs', 'FalconModel.ErrSerialize', 'FalconModel.ErrSerializeProofs']
+DRIVERS = ['ehdriver', 'esdriver']
 THEOREMS = [
     # falcon/app.py add_error_handler + _find_error_handler (model Eh.register / Eh.lookup / Eh.find)
     'Eh.lookup_append_single', 'Eh.latest_registration_wins', 'Eh.other_class_unaffected', 'Eh.find_most_specific', 'Eh.find_none_iff',
     # falcon/app.py _handle_exception (model Eh.handle)
     'Eh.body_reset_before_handler', 'Eh.handler_runs_on_clean_body', 'Eh.handler_raised_http_rendered', 'Eh.handler_raised_status_rendered',
     'Eh.escape_iff', 'Eh.default_exception_is_500_and_never_escapes', 'Eh.default_httperror_keeps_status',
+    # falcon/app_helpers.py default_serialize_error (model Es.serializeChoice on top of Mt.bestMatch)
+    'Es.serialize_json_on_tie', 'Es.negotiated_tie_is_json', 'Es.serialize_xml_only_if_preferred_and_enabled', 'Es.serialize_xml_type',
+    'Es.serialize_never_form_types', 'Es.serialize_ctype_negotiated', 'Es.serialize_none_iff', 'Es.serialize_none_accepts_nothing',
+    'Es.serialize_some_if_accepted', 'Es.serialize_typeOnly_only', 'Es.serialize_media_only_if_handler', 'Es.serialize_ctype_preferred',
+    # falcon/http_error.py HTTPError.__init__ / to_dict (model Es.mkError / Es.toDict)
+    'Es.to_dict_fields_exact', 'Es.to_dict_keys', 'Es.mk_error_fields',
+    # falcon/app.py _compose_error_response / _compose_status_response, Response.set_headers / append_header (model Es.composeError / Es.composeStatus)
+    'Es.vary_accept_always_appended', 'Es.httperror_status_headers_kept', 'Es.httpstatus_text_headers_kept', 'Es.composeError_spec',
+    'Es.composeError_header_not_supported_iff', 'Es.setHeaders_last_wins', 'Es.setHeaders_other', 'Es.setHeaders_none_iff',
 ]
 STATEMENTS = {
     'Eh.latest_registration_wins': 'after add_error_handler(c, h) the registry maps c to h, whatever was registered before',
@@ -21,6 +30,23 @@ STATEMENTS = {
     'Eh.escape_iff': 'an exception leaves _handle_exception iff no class of the MRO is registered or the chosen handler raises something other than HTTPError/HTTPStatus',
     'Eh.default_exception_is_500_and_never_escapes': 'with the three default registrations in the history and no later registration for a class of the MRO, an Exception-derived (non-HTTPError, non-HTTPStatus) error is handled (never escapes) and yields status 500',
     'Eh.default_httperror_keeps_status': 'with the default registrations and no later registration for a class of the MRO, an HTTPError-derived error yields its own status and serialized body',
+    'Es.serialize_json_on_tie': 'for every configuration and ASCII Accept header: if JSON has a positive quality that no offered type exceeds, default_serialize_error renders JSON',
+    'Es.negotiated_tie_is_json': 'a negotiated type whose quality equals that of JSON is JSON (first maximum of best_match, JSON first in the offered list)',
+    'Es.serialize_xml_only_if_preferred_and_enabled': 'the built-in XML body is produced only if xml_error_serialization is on, no handler resolves the type, and either the negotiated type is strictly better than JSON or nothing was negotiated, the header has no "+json" and has "+xml"',
+    'Es.serialize_xml_type': 'with real (truthy) handlers and no handler keyed "*/*", a built-in XML body is always labelled text/xml or application/xml',
+    'Es.serialize_never_form_types': 'whatever Content-Type the default serializer sets, it is neither multipart/form-data nor application/x-www-form-urlencoded, for every Accept header and configuration (F31)',
+    'Es.serialize_ctype_negotiated': 'the Content-Type set is an offered type with positive quality that is maximal among the offered types, or (only when nothing is negotiated) the type chosen by the +json/+xml heuristic',
+    'Es.serialize_none_iff': 'nothing is rendered iff best_match over the offered types yields nothing (all qualities 0, or a ValueError) and neither "+json" nor "+xml" occurs in the lower-cased Accept header',
+    'Es.serialize_none_accepts_nothing': 'if nothing is rendered for a well-formed header, every offered type has quality 0 for the client',
+    'Es.serialize_some_if_accepted': 'if some offered type has positive quality (all offered types well formed), something is rendered',
+    'Es.serialize_typeOnly_only': 'a Content-Type without a body arises only when XML is disabled and the preferred non-JSON type has no handler; with real handlers only through the "+xml" heuristic',
+    'Es.serialize_media_only_if_handler': 'resp.media = to_dict() is used only for a preferred non-JSON type that a configured handler resolves',
+    'Es.to_dict_fields_exact': 'to_dict() is exactly [title] + [description if not None] + [code if not None] + [link if not None], in this order, with the attribute values',
+    'Es.mk_error_fields': 'HTTPError.__init__: title falls back to the status line iff missing/empty; link exists iff href is non-empty and carries encode(href), rel=help and the given or default text',
+    'Es.vary_accept_always_appended': 'after _compose_error_response the Vary header exists, is "Accept" or "<previous value>, Accept", and Accept is one of its comma-separated members',
+    'Es.httperror_status_headers_kept': 'the response status is the error\'s; the last item per case-insensitive name of error.headers is on the response (Vary with ", Accept" appended, Content-Type unless a rendering replaces it); other headers keep their value',
+    'Es.httpstatus_text_headers_kept': '_compose_status_response sets the HTTPStatus\'s status, text and headers (last item per name) and changes no other header (no Vary, no Content-Type)',
+    'Es.composeError_header_not_supported_iff': '_compose_error_response raises (HeaderNotSupported) iff error.headers contains a Set-Cookie item',
 }
 TRUSTED = [
     'json.loads / xml.etree.ElementTree.fromstring as the decoders that define "faithful encoding" of the emitted body',
